@@ -222,10 +222,45 @@ def check_frames(spec):
         shutil.rmtree(tmp, ignore_errors=True)
 
 
+def check_callback_table(spec):
+    """C02 / A9 (supporting static fact): the function-local static table in cbor_load binds every slot of struct
+    cbor_callbacks to the builder callback of the same name (the proofs cb_* verify those callbacks; K' assumes they
+    are the ones the decoder calls)."""
+    hdr = open(os.path.join(driver.SRC, "cbor", "callbacks.h")).read()
+    m = re.search(r"struct\s+cbor_callbacks\s*\{(.*?)\n\};", hdr, flags=re.S)
+    if not m:
+        return dict(undecided="struct cbor_callbacks not found in callbacks.h", obligations=0, failures=[])
+    body = re.sub(r"/\*.*?\*/", " ", m.group(1), flags=re.S)
+    slots = re.findall(r"\bcbor_\w+_callback\s+(\w+)\s*;", body)
+    if len(slots) < 20:
+        return dict(undecided="could not parse the slots of struct cbor_callbacks", obligations=0, failures=[])
+    src = open(os.path.join(driver.SRC, "cbor.c")).read()
+    t = re.search(r"static\s+struct\s+cbor_callbacks\s+callbacks\s*=\s*\{(.*?)\};", src, flags=re.S)
+    if not t:
+        return dict(undecided="static callback table not found in cbor_load", obligations=0, failures=[])
+    init = re.sub(r"/\*.*?\*/|//[^\n]*", " ", t.group(1), flags=re.S)
+    pairs = re.findall(r"\.\s*(\w+)\s*=\s*&?\s*(\w+)", init)
+    if len(pairs) != len(re.findall(r"=", init)):
+        return dict(undecided="callback table initialiser has an unexpected shape", obligations=0, failures=[])
+    fails, seen = [], {}
+    for slot, fn in pairs:
+        seen[slot] = fn
+        if fn != "cbor_builder_%s_callback" % slot:
+            fails.append(dict(id="table.%s" % slot, file=os.path.join(driver.SRC, "cbor.c"),
+                              what="C02: cbor_load's callback table binds slot .%s to %s (expected cbor_builder_%s_callback)" % (slot, fn, slot)))
+    for slot in slots:
+        if slot not in seen:
+            fails.append(dict(id="table.%s" % slot, file=os.path.join(driver.SRC, "cbor.c"),
+                              what="C02: cbor_load's callback table leaves slot .%s unset (NULL): a head of that kind would call through a null pointer" % slot))
+    return dict(obligations=len(slots), failures=fails, samples=["%d slots, each bound to cbor_builder_<slot>_callback" % len(slots)],
+                cmd="textual check of the designated initialisers of cbor_load::callbacks against struct cbor_callbacks")
+
+
 CHECKS = [
     dict(name="static_nm_scan", props=["C13"], fn=check_nm),
     dict(name="static_symbol_scan", props=["C17"], fn=check_statics),
     dict(name="static_recursive_frames", props=["C19"], fn=check_frames),
+    dict(name="static_callback_table", props=["C02"], fn=check_callback_table),
 ]
 
 
